@@ -10,6 +10,7 @@ import Rv.Model.ClusterMulti
 import Rv.Lemmas.ClusterMulti
 import Rv.Lemmas.ClusterMultiInv
 import Rv.Lemmas.ClusterMultiCover
+import Rv.Lemmas.ClusterMultiSent
 namespace Rv.C20
 open Rv Rv.Topology Rv.ClusterRoute Rv.ClusterMulti Rv.ClusterMultiL
 
@@ -304,6 +305,46 @@ theorem tx_requeued_contiguous (nc : Conn) (block : List Entry) (p : Pending) :
     (pget nc (addCmds nc block p)).cmds = (pget nc p).cmds ++ block ∧
     (pget nc (addAsks nc block p)).asks = (pget nc p).asks ++ block :=
   ⟨(addCmds_cmds nc block p).1, (addAsks_asks nc block p).1⟩
+
+/-! ## recycling of the per-connection batch -/
+
+/-- `doretry` hands the per-connection batch back to the pool (which clears the very command slice the
+    connection was given) only when it is clean: the pool grows by this batch exactly when every reply of both of
+    its calls came from the server (`NonRedisError() == nil`). If some command was answered with a transport or
+    context error — it may still be queued, unwritten, on the connection — nothing is recycled. -/
+theorem retry_recycled_only_when_clean (o : Opt) (cache hasInit : Bool) (attempts : Nat) (cc : Conn) (re : Retry)
+    (a : Acc) (w : World) :
+    (doRetry o cache hasInit attempts cc re a w).2.recycled =
+      w.recycled ++ (if retryClean cache cc re w then [(cc, (re.cmds ++ re.asks).map (·.2.id))] else []) ∧
+    (retryClean cache cc re w = true ↔
+      ((re.cmds = [] ∨ ∀ r ∈ phaseReplies cc (callKind cache) (re.cmds.map fun e => Item.cmd e.2.id) re.cmds w,
+          isRedisReply r = true) ∧
+       (re.asks = [] ∨ ∀ r ∈ phaseReplies cc .multi (if cache then askingCacheItems re.asks else askingItems false re.asks)
+          re.asks (afterCmds cache cc re w), isRedisReply r = true))) := by
+  constructor
+  · unfold doRetry
+    simp only
+    split
+    · simp only [recycle, doRetryCore_recycled]
+    · simp only [doRetryCore_recycled, List.append_nil]
+  · unfold retryClean
+    simp only [Bool.and_eq_true, Bool.or_eq_true, decide_eq_true_eq, List.all_eq_true]
+
+/-- a context error (the caller gave up while the batch was queued) keeps the batch out of the pool -/
+theorem abandoned_batch_not_recycled (o : Opt) (cache hasInit : Bool) (attempts : Nat) (cc : Conn) (re : Retry)
+    (a : Acc) (w : World) (hne : re.cmds ≠ []) (s : Bytes)
+    (h : Reply.cerr s ∈ phaseReplies cc (callKind cache) (re.cmds.map fun e => Item.cmd e.2.id) re.cmds w) :
+    (doRetry o cache hasInit attempts cc re a w).2.recycled = w.recycled := by
+  have hnot : retryClean cache cc re w = false := by
+    cases hcl : retryClean cache cc re w with
+    | false => rfl
+    | true =>
+      have := ((retry_recycled_only_when_clean o cache hasInit attempts cc re a w).2.mp hcl).1
+      rcases this with h0 | h0
+      · exact absurd h0 hne
+      · have := h0 _ h; simp [isRedisReply] at this
+  rw [(retry_recycled_only_when_clean o cache hasInit attempts cc re a w).1, hnot]
+  simp
 
 /-! ## ASKING -/
 
